@@ -118,19 +118,37 @@ def _assigned_names(fn: ast.AST) -> Set[str]:
     return out
 
 
+def _root_name(n: ast.AST) -> Optional[str]:
+    while isinstance(n, (ast.Subscript, ast.Attribute)):
+        n = n.value
+    return n.id if isinstance(n, ast.Name) else None
+
+
 def _mutations(fn: ast.AST) -> Dict[str, Set[str]]:
-    """For every plain name: the kinds of mutation applied through it in this function."""
+    """For every plain name: the kinds of mutation applied through it (directly or through a
+    chain of subscripts / attributes rooted in it) in this function."""
     out: Dict[str, Set[str]] = {}
     for n in ast.walk(fn):
-        if isinstance(n, ast.Call) and isinstance(n.func, ast.Attribute) and isinstance(n.func.value, ast.Name):
-            out.setdefault(n.func.value.id, set()).add(n.func.attr)
-        elif isinstance(n, (ast.Subscript, ast.Attribute)) and isinstance(n.ctx, (ast.Store, ast.Del)) and isinstance(n.value, ast.Name):
-            out.setdefault(n.value.id, set()).add("<setitem>" if isinstance(n, ast.Subscript) else "<setattr>")
+        if isinstance(n, ast.Call) and isinstance(n.func, ast.Attribute):
+            if isinstance(n.func.value, ast.Name):
+                out.setdefault(n.func.value.id, set()).add(n.func.attr)
+            elif isinstance(n.func.value, ast.Subscript):
+                r = _root_name(n.func.value)
+                if r is not None and n.func.attr in ("append", "add", "extend", "update", "pop", "remove", "clear", "insert", "setdefault", "discard"):
+                    out.setdefault(r, set()).add("<setitem>")
+        elif isinstance(n, (ast.Subscript, ast.Attribute)) and isinstance(n.ctx, (ast.Store, ast.Del)):
+            if isinstance(n.value, ast.Name):
+                out.setdefault(n.value.id, set()).add("<setitem>" if isinstance(n, ast.Subscript) else "<setattr>")
+            elif isinstance(n, ast.Subscript):
+                r = _root_name(n.value)
+                if r is not None and isinstance(n.value, ast.Subscript):
+                    out.setdefault(r, set()).add("<setitem>")
         elif isinstance(n, ast.AugAssign) and isinstance(n.target, ast.Name):
             out.setdefault(n.target.id, set()).add("<aug>")
     return out
 
 
+_TAKERS = {"pop", "popitem", "popleft", "heappop", "get_nowait"}
 _MUTATORS = {"append", "add", "extend", "update", "pop", "remove", "clear", "insert", "setdefault",
              "discard", "popitem", "sort", "reverse", "<setitem>", "<setattr>", "<aug>", "set", "cancel"}
 
@@ -472,13 +490,14 @@ class Walker:
             self.env[name] = ("bag", (), kind)
             return
         self.acc_ctx.pop(name, None)
-        if muts and sv[0] in ("bag", "dict", "call", "agg"):
-            # a fresh mutable object that is mutated later: keep it opaque
+        if muts - {"cancel", "set", "<setattr>"}:
+            # a local object that is mutated through this name later on: keep the name opaque
+            # (the bind event records what it was initialised from / aliases)
             self.env[name] = T.var(name)
             return
-        if muts and sv[0] not in ("const",):
-            # alias of something that is then mutated through this name: keep the alias visible
-            self.env[name] = ("let", name, ev.idx, value)
+        if sv[0] == "call" and ((sv[1][0] == "attr" and sv[1][2] in _TAKERS) or (sv[1][0] == "glob" and sv[1][1].rsplit(".", 1)[-1] in _TAKERS)):
+            # the value was *taken out* of a container: substituting the call would duplicate the effect
+            self.env[name] = T.var(name)
             return
         self.env[name] = ("let", name, ev.idx, value)
 
